@@ -24,6 +24,11 @@ pub enum Conn {
     WebSocket,
     /// response larger than the socket buffers, read only after `run` has returned
     BigResponse,
+    /// forty connections that are reset (SO_LINGER 0) the moment they are established: some are gone before the
+    /// server has accepted them
+    ResetStorm,
+    /// a peer the connection condition turns away (it connects from 127.0.0.2), silent, socket kept open
+    DeniedSilent,
 }
 const BIG: usize = 8 << 20;
 
@@ -50,6 +55,22 @@ fn parse_responses(mut b: &[u8]) -> (usize, usize) {
     }
 }
 
+fn socket_linger0(s: &std::net::TcpStream) -> std::io::Result<()> {
+    use std::os::unix::io::AsRawFd;
+    #[repr(C)]
+    struct Linger {
+        l_onoff: i32,
+        l_linger: i32,
+    }
+    extern "C" {
+        fn setsockopt(fd: i32, level: i32, name: i32, val: *const std::ffi::c_void, len: u32) -> i32;
+    }
+    let l = Linger { l_onoff: 1, l_linger: 0 };
+    // SOL_SOCKET = 1, SO_LINGER = 13 on Linux
+    let rc = unsafe { setsockopt(s.as_raw_fd(), 1, 13, &l as *const _ as *const std::ffi::c_void, std::mem::size_of::<Linger>() as u32) };
+    if rc == 0 { Ok(()) } else { Err(std::io::Error::last_os_error()) }
+}
+
 fn replay(bind_ip: &str, conns: &[Conn]) -> Result<String, String> {
     let port = std::net::TcpListener::bind("127.0.0.1:0").unwrap().local_addr().unwrap().port();
     let bind = if bind_ip.contains(':') { format!("[{}]:{}", bind_ip, port) } else { format!("{}:{}", bind_ip, port) };
@@ -60,8 +81,12 @@ fn replay(bind_ip: &str, conns: &[Conn]) -> Result<String, String> {
     let g2 = gate.clone();
     let entered = Arc::new(std::sync::atomic::AtomicUsize::new(0));
     let e2 = entered.clone();
+    fn allowed(stream: &mut tokio::net::TcpStream, _s: Arc<()>) -> bool {
+        stream.peer_addr().map_or(true, |a| a.ip() != std::net::IpAddr::from([127, 0, 0, 2]))
+    }
     let app: App<()> = App::new_with_config(())
         .with_shutdown(token.clone())
+        .with_connection_condition(allowed)
         .with_stateless_route("/", |_r: Request| async { Response::new(StatusCode::OK, b"0123456789abcdefghijklmnopqrstuvwxyz-body") })
         .with_stateless_route("/slow", move |_r: Request| {
             let g = g2.clone();
@@ -100,7 +125,35 @@ fn replay(bind_ip: &str, conns: &[Conn]) -> Result<String, String> {
     let mut socks = vec![];
     let start_reading = Arc::new(std::sync::atomic::AtomicBool::new(false));
     for (i, c) in conns.iter().enumerate() {
-        let mut s = std::net::TcpStream::connect(&target).map_err(|e| format!("client connect: {}", e))?;
+        if *c == Conn::ResetStorm {
+            for _ in 0..40 {
+                if let Ok(s) = std::net::TcpStream::connect(&target) {
+                    // SO_LINGER {on, 0}: close() sends RST
+                    let _ = socket_linger0(&s);
+                    drop(s);
+                }
+            }
+            // keep indices aligned: a placeholder connection that behaves like JustConnected
+        }
+        let mut s = if *c == Conn::DeniedSilent && !bind_ip.contains(':') {
+            // connect from 127.0.0.2 (tokio's TcpSocket can bind before connecting)
+            let t2 = target.clone();
+            let rt2 = tokio::runtime::Builder::new_current_thread().enable_all().build().map_err(|e| e.to_string())?;
+            let st = rt2.block_on(async move {
+                let sock = tokio::net::TcpSocket::new_v4()?;
+                sock.bind("127.0.0.2:0".parse().unwrap())?;
+                sock.connect(t2.parse().unwrap()).await
+            });
+            match st.and_then(|x| x.into_std()) {
+                Ok(x) => {
+                    let _ = x.set_nonblocking(false);
+                    x
+                }
+                Err(e) => return Err(format!("client connect from 127.0.0.2: {}", e)),
+            }
+        } else {
+            std::net::TcpStream::connect(&target).map_err(|e| if returned.lock().unwrap().is_some() { "run() returned before the shutdown signal was sent".to_string() } else { format!("client connect: {}", e) })?
+        };
         let bytes: &[u8] = match c {
             Conn::JustConnected => b"",
             Conn::HalfRequest => b"GET / HTTP/1.1\r\nHost: x",
@@ -109,6 +162,7 @@ fn replay(bind_ip: &str, conns: &[Conn]) -> Result<String, String> {
             Conn::Long => b"GET /slow HTTP/1.1\r\nHost: x\r\nConnection: close\r\n\r\n",
             Conn::WebSocket => b"GET /ws HTTP/1.1\r\nHost: x\r\nUpgrade: websocket\r\nConnection: Upgrade\r\n\r\n",
             Conn::BigResponse => b"GET /big HTTP/1.1\r\nHost: x\r\nConnection: close\r\n\r\n",
+            Conn::ResetStorm | Conn::DeniedSilent => b"",
         };
         let _ = s.write_all(bytes);
         let (sr, late_reader) = (start_reading.clone(), *c == Conn::BigResponse);
@@ -138,6 +192,24 @@ fn replay(bind_ip: &str, conns: &[Conn]) -> Result<String, String> {
     }
     std::thread::sleep(Duration::from_millis(60));
     let n_entered = entered.load(std::sync::atomic::Ordering::SeqCst);
+    // until the signal is sent the server keeps serving: `run` has not returned and a fresh client gets its answer
+    if returned.lock().unwrap().is_some() {
+        rt.shutdown_background();
+        return Err("run() returned before the shutdown signal was sent".into());
+    }
+    {
+        let fresh = std::net::TcpStream::connect(&target).and_then(|mut f| {
+            f.set_read_timeout(Some(Duration::from_secs(3)))?;
+            f.write_all(b"GET / HTTP/1.1\r\nHost: x\r\nConnection: close\r\n\r\n")?;
+            let mut v = vec![];
+            let _ = f.read_to_end(&mut v);
+            Ok(v)
+        });
+        if !matches!(&fresh, Ok(v) if parse_responses(v) == (1, 0)) {
+            rt.shutdown_background();
+            return Err("a fresh client is not served although no shutdown signal has been sent".into());
+        }
+    }
     let sent = Instant::now();
     token.cancel();
     let deadline = Instant::now() + Duration::from_secs(5);
@@ -202,6 +274,10 @@ pub fn run(quick: bool) -> Stats {
     for k in kinds {
         scns.push(("127.0.0.1", vec![k]));
     }
+    scns.push(("127.0.0.1", vec![Conn::ResetStorm]));
+    scns.push(("127.0.0.1", vec![Conn::ResetStorm, Conn::Short]));
+    scns.push(("127.0.0.1", vec![Conn::DeniedSilent]));
+    scns.push(("0.0.0.0", vec![Conn::DeniedSilent, Conn::KeepAliveIdle]));
     for a in kinds {
         for b in kinds {
             if quick && a != b && !(a == Conn::Long || b == Conn::Short) {
